@@ -30,6 +30,9 @@ Latitude (statement silent -> both behaviours accepted):
    equation (the user opted out of the comparison).
 Out of scope (observed, not judged): register_element(ElementDefinition(Class=<a built-in class>, symbol="Rzz", ...)) is accepted and
 renames the built-in for the rest of the process (reset() does not undo it); the property quantifies over user-defined elements.
+Minor-component family (templates Rl, Cr, Rk): one component is <= 8e-6 of |Z| at all five comparison frequencies and the
+contradicting equation flips, omits or doubles exactly that component - refusal is demanded because the contradiction is
+>= 1e3 x that component's own allclose tolerance (margins in worst_observed).
 Contradicting equations are generated only when they differ from the numeric impedance by >= 1e3 x numpy.allclose's
 tolerance at the library's five comparison frequencies (worst margin reported in worst_observed).
 """
@@ -48,7 +51,8 @@ RULE = (
     "histories of 8-20 (thorough: 8-40, single-history interpreters twice that) operations over {register_element x {valid, padded symbol, "
     "identical re-registration, built-in symbol, taken user symbol, invalid symbol (18 forms), equation contradicting _impedance in re/im/both for a new "
     "class AND for a class object accepted earlier (after remove/reset/nothing, same/other symbol), consistent redefinition of a registered class} x "
-    "private in {omitted, True, False} x 7 element templates (incl. a Resistor subclass and a container), remove_elements, reset x 4 flag cells, "
+    "private in {omitted, True, False} x 10 element templates (incl. a Resistor subclass, a container and 3 minor-component templates whose "
+    "contradiction is < 1e-5 of |Z| but >= 1e3 x the component's own tolerance), remove_elements, reset x 4 flag cells, "
     "set_default_values (kw/positional/mixed, invalid forms) on built-ins incl. the private K/Ky and on user classes, reset_default_parameter_values "
     "(None/class/list), parse_cdc of composed codes, tampering with returned dicts} generated from rng([seed, case]); 25 histories per fresh "
     "interpreter with a reset()+snapshot barrier, plus single-history interpreters; every step is compared with the registry reference model. "
@@ -157,6 +161,13 @@ def finalize(agg):
     for k in need:
         if st.get(k, 0) == 0:
             inc.append("deciding comparison never ran: " + k)
+    for t in ("Rl", "Cr", "Rk"):
+        for eq in ("neg", "zero", "dbl"):
+            if not any(k.startswith("pattern:minor-component:%s:%s:" % (t, eq)) and v > 0 for k, v in st.items()):
+                inc.append("pattern never occurred: minor-component contradiction (template %s, %s)" % (t, eq))
+    rel = agg["maxobs"].get("minor_component_over_modulus")
+    if rel is not None and rel > 8e-6:
+        inc.append("generator precondition not met: a 'minor' component exceeds 8e-6 of |Z|")
     for after in ("nothing", "remove", "reset", "unregistered-earlier"):
         for sk in ("same", "other"):
             if not any(k.startswith("pattern:reuse-inconsistent:after=%s:symbol=%s:" % (after, sk)) and v > 0 for k, v in st.items()):
